@@ -248,9 +248,10 @@ def check(ctx):
                   "AssertionType.%s is dispatched to %s" % (m, [ast.unparse(c) for c in cs]), body[0] if body else first)
     ctx.check(any(isinstance(s, ast.Raise) for s in else_body), R, sat, "else raises", "unknown kinds raise", "unknown assertion kinds are silently ignored")
     F = Facts(sat)
-    ctx.check(F.assigns("fresh_cnf") == ["CNF.from_fresh(fresh)"] and F.assigns("final_cnf") == ["CNF.from_fresh(fresh) + initial_cnf"] or
-              F.assigns("final_cnf") == ["fresh_cnf + initial_cnf"], R, sat, "combination", "request clauses and the base formula are conjoined; numbering starts above `fresh`",
-              "combine_cnf_with_requests combination changed: %s / %s" % (F.assigns("fresh_cnf"), F.assigns("final_cnf")))
+    comb_ = F.assigns("final_cnf") or F.returns()[-1:]        # assigned to a local, or returned directly
+    ctx.check(F.assigns("fresh_cnf") == ["CNF.from_fresh(fresh)"] and comb_ in (["CNF.from_fresh(fresh) + initial_cnf"], ["fresh_cnf + initial_cnf"]),
+              R, sat, "combination", "request clauses and the base formula are conjoined; numbering starts above `fresh`",
+              "combine_cnf_with_requests combination changed: %s / %s" % (F.assigns("fresh_cnf"), comb_))
     ff = ctx.fn("cnf:CNF.from_fresh")
     ctx.check(Facts(ff).assigns("cnf._num_vars") == ["fresh"], R, ff, "from_fresh", "auxiliary numbering starts above the given count", "from_fresh no longer records the variable count")
     for name, flag in (("assert_k_less_than_n", "True"), ("assert_k_greater_than_n", "False")):
